@@ -463,7 +463,7 @@ pub fn add_end_violation(rep: &sim::SimReport, violations: &mut Vec<Violation>) 
             let op = pending();
             let opk: String = op.split(|c: char| c == ' ' || c == '(').next().unwrap_or("").to_string();
             // (a panic the database caught itself fails one request; a thread that died is the likelier cause)
-            let class = match rep.ctx.panics.iter().find(|p| !p.contained).or(rep.ctx.panics.first()) {
+            let class = match crate::env::root_cause(&rep.ctx.panics) {
                 Some(p) => format!("hang_after_panic:{}:{}:{opk}", file_of(&p.location), stem(&p.message)),
                 None => format!("hang:{opk}:no_panic"),
             };
